@@ -1096,10 +1096,18 @@ fn mint_case(ctx: &mut Ctx, r: &mut Rng, _i: u64) {
         let mut mb = MintBuilder::new();
         let mut model: BTreeMap<(u8, Vec<u8>), NB> = BTreeMap::new();
         let mut any_err = false;
+        let plutus_p1 = ops.len() % 2 == 1;
+        let plutus_policy = PlutusScript::new_v2(vec![0x4d, 0x01, 0x00, 0x00, 0x22, 0x33]);
         for (p, name, neg, mag, set) in &ops {
             // a distinct native script per policy index (timelock with different slot)
             let script = NativeScript::new_timelock_start(&TimelockStart::new_timelockstart(&BigNum::from(*p as u64 + 1)));
-            let wit = MintWitness::new_native_script(&NativeScriptSource::new(&script));
+            // policy 1 is a Plutus policy in every other case: both witness kinds go through the same arithmetic
+            let wit = if *p == 1 && plutus_p1 {
+                let red = Redeemer::new(&RedeemerTag::new_mint(), &BigNum::from(0u64), &PlutusData::new_integer(&BigInt::from_str("1").unwrap()), &ExUnits::new(&BigNum::from(1u64), &BigNum::from(1u64)));
+                MintWitness::new_plutus_script(&PlutusScriptSource::new(&plutus_policy), &red)
+            } else {
+                MintWitness::new_native_script(&NativeScriptSource::new(&script))
+            };
             let amt = if *neg { Int::new_negative(&BigNum::from(*mag)) } else { Int::new(&BigNum::from(*mag)) };
             let an = AssetName::new(name.clone()).unwrap();
             let exact_amt = if *neg { -nb(*mag) } else { nb(*mag) };
@@ -1130,7 +1138,7 @@ fn mint_case(ctx: &mut Ctx, r: &mut Rng, _i: u64) {
                         let script_slot = (1..=2u8).find(|s| {
                             NativeScript::new_timelock_start(&TimelockStart::new_timelockstart(&BigNum::from(*s as u64))).hash() == pid
                         });
-                        let pidx = script_slot.map(|s| s - 1).unwrap_or(255);
+                        let pidx = script_slot.map(|s| s - 1).unwrap_or(if pid == plutus_policy.hash() { 1 } else { 255 });
                         let mas = mint.get(&pid).unwrap();
                         for k in 0..mas.len() {
                             let ma = mas.get(k).unwrap();
